@@ -103,13 +103,14 @@ func Run(cfg Config) int {
 				continue
 			}
 			full := pn + "." + cn
-			if cfg.Only != "" && !strings.Contains(full, cfg.Only) {
+			fo := pi.FuncNames[cn]
+			if cfg.Only != "" && !strings.Contains(full, cfg.Only) && !(fo == nil && eng.IsInterfaceMethod(pi, cn)) {
 				continue
 			}
-			fo := pi.FuncNames[cn]
 			if fo == nil {
 				if eng.IsInterfaceMethod(pi, cn) {
 					results = append(results, &vc.FuncResult{Name: full, Pkg: pn, Trusted: "interface contract (implementations are checked for refinement)", Serves: ct.Serves})
+					results = append(results, eng.Refinements(pi, cn, ct, cfg.Only)...)
 					continue
 				}
 				anchorErrs = append(anchorErrs, fmt.Sprintf("%s: contract anchored on a function that no longer exists (%s:%d)", full, ct.File, ct.Line))
